@@ -368,7 +368,7 @@ def run(ctx):
     thorough = ctx.tier == "thorough"
     rng = ctx.rng
     jobs = []   # (widths, regs, share of regions that also go through the fetch APIs, label)
-    share = 0.5 if thorough else 0.1
+    share = 0.5 if thorough else 0.2
     for widths in CORPUS:
         blocks = blocks_from_widths(widths)
         small = max(b[-1][2] for b in blocks) <= 12
@@ -376,7 +376,7 @@ def run(ctx):
         jobs.append((widths, regs, 0.5, "corpus"))
     for widths in small_tables(thorough):
         blocks = blocks_from_widths(widths)
-        jobs.append((widths, regions_small(rng, blocks, 0.5 if thorough else 0.25), share, "small"))
+        jobs.append((widths, regions_small(rng, blocks, 0.5 if thorough else 0.4), share, "small"))
     for _ in range(400 if thorough else 60):
         widths = random_blocks(rng)
         blocks = blocks_from_widths(widths)
@@ -444,7 +444,6 @@ def run(ctx):
         vals = {(a, b_): v for a, b_, v in px}
         multi = len(blocks) >= 2
         mext = {i: unopt(m) for i, m in enumerate(mext_all)}
-        ridx = {id(reg): i for i, reg in enumerate(regs)}
         mf = {i: m for i, m in zip(fidx, mfetch)}
         mp2 = {k: unopt(m) for k, m in enumerate(mpairs)}
         pair_no = 0
